@@ -463,7 +463,26 @@ func coverCase(c *mon.Case) {
 	c.Count("coverings.checked", 1)
 	levelOK("Covering", cov)
 	covers("Covering", cov)
+	// the normalized form: covers, is normalized, no cell above MaxLevel (MinLevel/LevelMod do not apply)
+	cu := rc.CellUnion(rg.r)
+	covers("CellUnion", cu)
+	if !cu.IsNormalized() {
+		c.Violation("CellUnion/not-normalized/wrong-answer", "RegionCoverer.CellUnion returned a cell union that is not normalized", det(map[string]any{"cells": len(cu)}))
+	}
+	for _, id := range cu {
+		if id.Level() > maxLevel {
+			c.Violation("CellUnion/level/above-max-level/wrong-answer", fmt.Sprintf("RegionCoverer.CellUnion returned a cell at level %d, MaxLevel is %d", id.Level(), maxLevel), det(nil))
+			break
+		}
+	}
+	// (canonical form is not part of C05's statement: only counted)
+	if !rc.IsCanonical(cov) {
+		c.Count("coverings.not_canonical", 1)
+	}
 	fast := rc.FastCovering(rg.r)
+	if !rc.IsCanonical(fast) {
+		c.Count("fast.not_canonical", 1)
+	}
 	c.Count("fast.checked", 1)
 	levelOK("FastCovering", fast)
 	covers("FastCovering", fast)
@@ -471,6 +490,18 @@ func coverCase(c *mon.Case) {
 	if rg.in != nil && rg.kind != "Point" {
 		irc := &s2.RegionCoverer{MinLevel: minLevel, MaxLevel: minInt(maxLevel, own+3), LevelMod: levelMod, MaxCells: minInt(maxCells, 50)}
 		if irc.MaxLevel >= irc.MinLevel {
+			if icu := irc.InteriorCellUnion(rg.r); !icu.IsNormalized() {
+				c.Violation("InteriorCellUnion/not-normalized/wrong-answer", "InteriorCellUnion returned a cell union that is not normalized", det(nil))
+			} else {
+				for _, id := range icu {
+					for _, p := range cellSamples(r, s2.CellFromCellID(id)) {
+						if !rg.in(p) {
+							c.Violation("InteriorCellUnion/cell-not-inside/"+rg.kind+"/wrong-answer", fmt.Sprintf("a point of InteriorCellUnion cell %s is not in the %s", id.ToToken(), rg.kind), det(map[string]any{"point": gen.Hex(p)}))
+							break
+						}
+					}
+				}
+			}
 			ic := irc.InteriorCovering(rg.r)
 			for _, id := range ic {
 				l := id.Level()
